@@ -11,7 +11,7 @@ from sa.exc import CANCELLED
 from sa.flow import FnExit, Interp, call_of
 
 CLAIM = {
-    "text": "Decides statelessness and cardinality of the datagram path: DatagramProtocol.make_datagram / build_packet_from_datagram store nothing and read only the two attributes fixed in the constructor; the datagram sender/receiver implementations declare no field besides transport and protocol (no buffer, no consumer); every datagram receive performs exactly one transport recv on every normal path, outside any loop, and hands exactly that value to exactly one build_packet_from_datagram call whose result is the only outcome; every send performs exactly one make_datagram and exactly one transport send of exactly that value (no slicing, concatenation or re-binding in between); the one-shot deserialize derived from the incremental interface raises on both 'generator did not finish' (closing it first) and 'non-empty remainder' and returns only on finished-and-empty; the overriding one-shot deserializers reject leftover data; only DatagramProtocolParseError (or the documented RuntimeError wrap) leaves a receive. Also decided: no input-dependent exception class other than DeserializeError escapes any serializer's one-shot deserialize (shared escape analysis of C06), so a malformed datagram is one parse error, not a RuntimeError; a datagram taken from a socket/queue is never dropped by a raising branch, an empty payload being a datagram like any other; the receive buffer handed to recv(2)/recvfrom(2) is MAX_DATAGRAM_BUFSIZE, a constant expression evaluated to at least the largest UDP payload (65527), at every datagram socket read; no except arm on the datagram path is shadowed. The loop-facing datagram_received() callbacks route a datagram independently of its payload; every text conversion of a serializer with a configured encoding uses it (no literal / default codec on one side only). Round 4: the queues between the datagram callbacks and the readers have no capacity bound (a bounded Queue + put_nowait or a deque(maxlen) drops datagrams silently). Round 5: a configured checksum is verified for every datagram (the guard reads the configuration only); iter_received_packets() returns a resumable iterator object, and the iterators end only on OSError. Round 6: every DeserializeError-family handler of DatagramProtocol.build_packet_from_datagram raises DatagramProtocolParseError; the UDP clients hand a packet to the endpoint exactly once per send_packet() on every path.",
+    "text": "Decides statelessness and cardinality of the datagram path: DatagramProtocol.make_datagram / build_packet_from_datagram store nothing and read only the two attributes fixed in the constructor; the datagram sender/receiver implementations declare no field besides transport and protocol (no buffer, no consumer); every datagram receive performs exactly one transport recv on every normal path, outside any loop, and hands exactly that value to exactly one build_packet_from_datagram call whose result is the only outcome; every send performs exactly one make_datagram and exactly one transport send of exactly that value (no slicing, concatenation or re-binding in between); the one-shot deserialize derived from the incremental interface raises on both 'generator did not finish' (closing it first) and 'non-empty remainder' and returns only on finished-and-empty; the overriding one-shot deserializers reject leftover data; only DatagramProtocolParseError (or the documented RuntimeError wrap) leaves a receive. Also decided: no input-dependent exception class other than DeserializeError escapes any serializer's one-shot deserialize (shared escape analysis of C06), so a malformed datagram is one parse error, not a RuntimeError; a datagram taken from a socket/queue is never dropped by a raising branch, an empty payload being a datagram like any other; the receive buffer handed to recv(2)/recvfrom(2) is MAX_DATAGRAM_BUFSIZE, a constant expression evaluated to at least the largest UDP payload (65527), at every datagram socket read; no except arm on the datagram path is shadowed. The loop-facing datagram_received() callbacks route a datagram independently of its payload; every text conversion of a serializer with a configured encoding uses it (no literal / default codec on one side only). Round 4: the queues between the datagram callbacks and the readers have no capacity bound (a bounded Queue + put_nowait or a deque(maxlen) drops datagrams silently). Round 5: a configured checksum is verified for every datagram (the guard reads the configuration only); iter_received_packets() returns a resumable iterator object, and the iterators end only on OSError. Round 6: every DeserializeError-family handler of DatagramProtocol.build_packet_from_datagram raises DatagramProtocolParseError; the UDP clients hand a packet to the endpoint exactly once per send_packet() on every path. Round 7: the line serializer's one-shot methods remove separators only under the keep_end switch.",
     "note": "Trusted: the serializers' one-shot serialize/deserialize are inverse on valid data (value level); the OS preserves datagram boundaries. Not decided: payload equality.",
     "technique": "effect/purity queries on the program database, cardinality-on-paths typestate by abstract interpretation, branch-totality typestate for the one-shot interface, exception-escape analysis (shared with C06)",
 }
